@@ -31,8 +31,9 @@ ASSUMPTIONS = [
 ]
 EXPLANATION = ("theorems: register keeps exactly the chain of previous smaller indentations (all line sequences); "
                "paths and results are invariant under strictly monotone re-indentation and under blank/comment "
-               "lines; node list has one entry per path in first-appearance order; lexer facts for indentation, "
-               "comment and blank lines")
+               "lines; node list has one entry per path in first-appearance order; literal round trip "
+               "lex(render d) = d for group/modification/definition/declaration lines; block grouping and block "
+               "values; scalar casts denote the written number")
 
 NAMES = ["a", "b", "c", "x", "y", "node", "very-long", "n23_NAME", "grp", "sub.item", "p.q.r", "A", "k_1", "z-9", "m0",
          "alpha", "beta.gamma", "d", "e", "f"]
@@ -606,6 +607,19 @@ def spec_lines(lines, preamble=None):
     return out
 
 
+def driver_payload(p):
+    """generator payloads -> the payload forms of the Lean specification"""
+    if p[0] == "defn":
+        return ["typed", p[1], p[2], p[3], p[4], p[5], True, p[6]]
+    if p[0] == "decl":
+        return ["typed", p[1], p[2], p[3], p[4], p[5], False, None]
+    if p[0] == "assign":
+        if p[1] is None:
+            return ["mod", p[2], p[3]]
+        return ["typed", p[1], p[4], p[5], p[6], p[2], True, p[3]]
+    return p
+
+
 def units_in(lines_json):
     us = set()
     for l in lines_json:
@@ -658,7 +672,7 @@ def flush(ctx, cases, prop="C13", sig_fn=None):
     for c in cases:
         rq = {"text": c["text"], "units": unit_rows(c["units"], c["preamble"])}
         if c["lines"] is not None:
-            rq["lines"] = c["lines"]
+            rq["lines"] = [[l[0], l[1], driver_payload(l[2])] for l in c["lines"]]
         reqs.append(rq)
     res = ctx.driver.ask_many(reqs)
     for c, r in zip(cases, res):
